@@ -92,7 +92,8 @@ def generate(seed: int, tier: str) -> Dict[str, Any]:
                 mags = ro.sample([0.05, -0.1, 0.15, 0.2, -0.25, 0.3, 0.35], len(TARGETS))
                 deltas = [{"kind": "edge" if t.startswith("e:") else "node", "id": t, "attr": "weight", "delta": m, "op_idx": None}
                           for t, m in zip(ro.sample(TARGETS, len(TARGETS)), mags)]
-            fault = {"batch": ro.weighted([("ok", 5), ("raise", 3), ("odd:" + ro.choice(ODD_RESULTS), 2)]),
+            fault = {"export": ro.chance(0.12), "consume": ro.chance(0.15),
+                     "batch": ro.weighted([("ok", 5), ("raise", 3), ("odd:" + ro.choice(ODD_RESULTS), 2)]),
                      "singles": sorted(set(ro.randint(0, 5) for _ in range(ro.choice([0, 0, 1, 2])))),
                      "exc": ro.choice(["RuntimeError", "ValueError", "KeyError", "OSError"])}
             tid: Any = turn
@@ -128,8 +129,18 @@ class RecordingStore(InMemoryGraphStore):
         return (getattr(d, "target_kind", None), getattr(d, "target_id", None), getattr(d, "attr", None),
                 round(float(getattr(d, "delta", 0.0)), 12))
 
+    def export_state(self) -> Any:
+        # what the snapshot writer asks the store for on a cadence turn: may fail like any other store call
+        if self.fault.get("export"):
+            self.export_raised = getattr(self, "export_raised", 0) + 1
+            raise _EXC[self.fault.get("exc", "RuntimeError")]("simulated export failure")
+        raise NotImplementedError   # no structured export: the writer falls back to the weight map
+
     def apply_deltas(self, gid: str, deltas: List[Any]) -> Any:  # type: ignore[override]
         ds = list(deltas)
+        if self.fault.get("consume") and not self.calls and isinstance(deltas, list):
+            # a store that works its way through the list it was handed by popping - and fails all the same
+            del deltas[:]
         first = not self.calls
         rec = {"gid": gid, "n": len(ds), "keys": [self.key(d) for d in ds], "batch": first, "raised": False}
         self.calls.append(rec)
